@@ -193,7 +193,9 @@ Inductive mres :=
 | MUnmodelled                                     (* see [expand] *)
 | MDiverge.                                       (* retry loop did not end within the fuel *)
 
-(* the nine integer arrays, user-stack case: nine HEAD requests whose results are NOT checked by the C code *)
+(* the nine integer arrays, user-stack case: nine HEAD requests issued one after the other whatever their results; [allok] is
+   the conjunction the C code tests afterwards (since fix 'MemInit tests the nine integer arrays': a NULL among them makes
+   p?gstrf_MemInit return memory_use(nzlmax, nzumax, nzlumax) + n at once, see mi_alloc) *)
 Fixpoint user_malloc_list (k : ustack) (sizes : list Z) (allok : bool) : ustack * bool :=
   match sizes with
   | [] => (k, allok)
@@ -205,18 +207,25 @@ Definition int_array_sizes (n : Z) : list Z :=
 
 Definition is_some {A} (o : option A) : bool := match o with Some _ => true | None => false end.
 
-(* while ( !ucol || !lsub || !usub ) { free; halve; give up or re-request }   (p?memory.c:333-354) *)
-Fixpoint retry_loop (fuel : nat) (s : pstate) (a : fargs) (ucol lsub usub : option Z) (nzlmax nzumax nzlumax : Z) (sysok : bool)
+(* while ( !ucol || !lsub || !usub ) { free; halve; give up or re-request }   (p?memory.c:371-397)
+   rtop1, rused = the locals retry_top1, retry_used (stack.top1 and stack.used right after lusup was expanded).  User space:
+   since fix 'the retry loop gives back exactly what the last attempt took' the loop puts stack.top1 / stack.used back to these
+   two values instead of calling ?user_free(nzumax*dword + (nzlmax+nzumax)*iword, HEAD); since fix 'the retry loop gives up
+   when nzumax < 1' the give-up test is  nzumax < annz/2 || nzumax < 1. *)
+Fixpoint retry_loop (fuel : nat) (s : pstate) (a : fargs) (ucol lsub usub : option Z) (nzlmax nzumax nzlumax : Z)
+                    (rtop1 rused : Z) (sysok : bool)
   : option (pstate * option Z * option Z * option Z * Z * Z) + mres :=
   if is_some ucol && is_some lsub && is_some usub then inl (Some (s, ucol, lsub, usub, nzlmax, nzumax))
   else match fuel with
        | O => inr MDiverge
        | S f =>
            let s1 := if ps_which s =? SYSTEM then s
-                     else set_stack s (user_free (ps_stack s) (nzumax * fa_dword a + (nzlmax + nzumax) * iword) HEAD) in
+                     else let k := ps_stack s in
+                          (* stack.top1 = retry_top1; stack.used = retry_used; *)
+                          set_stack s (mkStack (k_size k) rused rtop1 (k_top2 k) (k_array k)) in
            let nzumax' := Z.quot nzumax 2 in
            let nzlmax' := Z.quot nzlmax 2 in
-           if nzumax' <? Z.quot (fa_annz a) 2
+           if (nzumax' <? Z.quot (fa_annz a) 2) || (nzumax' <? 1)
            then inr (MFail s1 (memory_use (ps_ndim s1) nzlmax' nzumax' nzlumax (fa_dword a) + fa_n a))
            else
              match expand s1 nzumax' c_UCOL 0 (fa_dword a) (fa_fresh a) sysok with
@@ -227,7 +236,7 @@ Fixpoint retry_loop (fuel : nat) (s : pstate) (a : fargs) (ucol lsub usub : opti
                  | XOk s3 lsub' nzl3 =>
                      match expand s3 nzu2 c_USUB 1 (fa_dword a) (fa_fresh a) sysok with
                      | XUnmodelled => inr MUnmodelled
-                     | XOk s4 usub' nzu4 => retry_loop f s4 a ucol' lsub' usub' nzl3 nzu4 nzlumax sysok
+                     | XOk s4 usub' nzu4 => retry_loop f s4 a ucol' lsub' usub' nzl3 nzu4 nzlumax rtop1 rused sysok
                      end
                  end
              end
@@ -247,17 +256,24 @@ Definition mi_begin (s0 : pstate) (n : Z) : pstate :=
   let s := set_noexp_ndim s0 0 n in
   if ps_exp s then s else set_exp s true (ps_exp_lusup s) (ps_exp_ucol s) (ps_exp_lsub s) (ps_exp_usub s) (ps_exp_store s).
 
-(* the nine integer arrays (lines 306-326): system malloc, or nine HEAD requests on the user stack *)
+(* the nine integer arrays (lines 333-359): system malloc, or nine HEAD requests on the user stack; the boolean is
+   "none of them is NULL" (always true in system space, where intMalloc exits on failure) *)
 Definition mi_int_arrays (s : pstate) (a : fargs) : pstate * Z * bool :=
   if ps_which s =? SYSTEM then (s, fa_fresh a, true)
   else let '(k, ok) := user_malloc_list (ps_stack s) (int_array_sizes (fa_n a)) true in (set_stack s k, k_array k, ok).
 
-(* lines 328-362, after the work space has been set up *)
+(* lines 340-404, after the work space has been set up *)
 Definition mi_alloc (s : pstate) (a : fargs) (nzlmax nzumax nzlumax : Z) (sysok : bool) : mres :=
   let '(s, store, intok) := mi_int_arrays s a in
+  (* user space:  if ( !xsup || ... || !xusub_end ) return (memory_use(nzlmax, nzumax, nzlumax) + n);
+     (system space: intMalloc exits on failure, intok = true) *)
+  if negb intok then MFail s (memory_use (ps_ndim s) nzlmax nzumax nzlumax (fa_dword a) + fa_n a)
+  else
   match expand s nzlumax c_LUSUP 0 (fa_dword a) (fa_fresh a) sysok with
   | XUnmodelled => MUnmodelled
   | XOk s lusup nzlumax =>
+    let rtop1 := k_top1 (ps_stack s) in          (* retry_top1 = stack.top1; *)
+    let rused := k_used (ps_stack s) in          (* retry_used = stack.used; *)
     match expand s nzumax c_UCOL 0 (fa_dword a) (fa_fresh a) sysok with
     | XUnmodelled => MUnmodelled
     | XOk s ucol nzumax =>
@@ -267,7 +283,7 @@ Definition mi_alloc (s : pstate) (a : fargs) (nzlmax nzumax nzlumax : Z) (sysok 
         match expand s nzumax c_USUB 1 (fa_dword a) (fa_fresh a) sysok with
         | XUnmodelled => MUnmodelled
         | XOk s usub nzumax =>
-          match retry_loop 64 s a ucol lsub usub nzlmax nzumax nzlumax sysok with
+          match retry_loop 64 s a ucol lsub usub nzlmax nzumax nzlumax rtop1 rused sysok with
           | inr r => r
           | inl None => MDiverge
           | inl (Some (s, ucol, lsub, usub, nzlmax, nzumax)) =>
